@@ -37,7 +37,8 @@ from common import Violation
 TITLE = "reusing factor and constraint objects across blocks does not change meaning"
 LEVEL = "proof"
 
-CAP = 1500
+CAP = 800
+DOMAINS = ["Hist", "Design"]
 
 OVERAPPROX = {
     ("Level", "factor"): "Factor.__post_init__ sets level.factor on the levels of a factor being created: "
@@ -95,23 +96,27 @@ def gen_family(rng):
         return b["id"]
     shape = rng.choice(["two-leaves", "two-leaves", "leaf-repeat-leaf", "nest+leaf", "merge+leaf", "same-geometry",
                         "three-leaves", "combinator-constraint", "repeat-of-shared"])
-    target = rng.choice([0, 0, 0, 1, 2])
+    target = rng.choice([0, 0, 0, 1, 1, 2])
     shared = [new_c(rand_shared_constraint(rng, 0, target))]
     if rng.random() < 0.4:
         shared.append(new_c(rand_shared_constraint(rng, 0, target)))
     others = [x for x in (0, 1, 2) if x != target]
     small = [target]
-    big = [target, rng.choice(others)]
-    if rng.random() < 0.3:
-        big = [target] + others
+    big = [target, rng.choice([x for x in others if x != 2] if rng.random() < 0.75 else others)]
+    size = {0: 2, 1: 2, 2: 3}
 
     def maybe_extra(design):
         d = list(design)
+        n = 1
+        for x in d:
+            n *= size[x]
+        if n > 4:
+            return d        # keep the solution sets enumerable
         if 0 in d and 1 in d and rng.random() < 0.3:
             d.append(3)
         if 0 in d and rng.random() < 0.15:
             d.append(5)
-        if rng.random() < 0.15:
+        if n <= 2 and rng.random() < 0.2:
             d.append(4)
         return d
 
@@ -237,7 +242,7 @@ def _alarm(signum, frame):
     raise _Timeout()
 
 
-def with_timeout(fn, seconds=20):
+def with_timeout(fn, seconds=10):
     old = signal.signal(signal.SIGALRM, _alarm)
     signal.alarm(seconds)
     try:
@@ -288,9 +293,10 @@ def verdict(block, key):
     return json.dumps({k: [str(x) for x in v] for k, v in r.items()}, sort_keys=True)
 
 
-def compare_block(shared_blk, fresh_blk):
+def compare_block(shared_blk, fresh_blk, cache=None):
     """Differences between a block built from shared objects and its fresh twin."""
     out = {}
+    cache = {} if cache is None else cache
     with ir.quiet():
         try:
             fs, ff = flat.flat_wire(shared_blk), flat.flat_wire(fresh_blk)
@@ -298,7 +304,9 @@ def compare_block(shared_blk, fresh_blk):
             fs, ff = "flat-failed:" + type(e).__name__, "flat-failed"
     if fs != ff:
         out["flat"] = True
-    ss, sf = solutions(shared_blk), solutions(fresh_blk)
+    if "fresh" not in cache:
+        cache["fresh"] = solutions(fresh_blk)
+    ss, sf = solutions(shared_blk), cache["fresh"]
     if ss[0] != sf[0] or (ss[0] == "error" and ss != sf):
         out["solutions"] = {"shared": ss[:2] if ss[0] == "error" else "ok", "fresh": sf[:2] if sf[0] == "error" else "ok"}
         return out
@@ -562,7 +570,7 @@ def run(ctx, res):
     stats = collections.Counter()
     tie = check_writeset(ctx, res)
     progs = [("corpus18:" + n, p) for n, p in corpus()]
-    n = 45 if ctx.quick else 450
+    n = 14 if ctx.quick else 160
     for _ in range(n):
         p = gen_family(ctx.rng)
         progs.append(("family:" + p.pop("family"), p))
@@ -570,7 +578,8 @@ def run(ctx, res):
     runs = []
     found = {}
     for name, program in progs:
-        for order in orders(program, 6 if ctx.quick else 12):
+        fresh_cache = collections.defaultdict(dict)
+        for order in orders(program, 4 if ctx.quick else 12):
             p, built, steps, descs, line, fmap = run_order(program, order, stats)
             stats["orders"] += 1
             if built.errors:
@@ -600,7 +609,7 @@ def run(ctx, res):
                         found.setdefault(sig, (name, p, bid, {"constructor": {
                             "shared": built.errors.get(("block", bid)), "fresh": twins[bid].errors.get(("block", bid))}}))
                     continue
-                d = compare_block(bs, bf)
+                d = compare_block(bs, bf, fresh_cache[bid])
                 stats["blocks:compared"] += 1
                 if d.get("capped"):
                     stats["blocks:solution-cap-reached"] += 1
